@@ -140,6 +140,7 @@ static void m_insert(int l, int pos, int i)
     m_seq[l][pos] = i; m_len[l]++; m_where[i] = l;
 }
 
+static void check_fresh(int l);
 static void w_apply(mc_op_t o)
 {
     int a = OA(o), b = OB(o), ab = 0, k;
@@ -223,6 +224,7 @@ static void w_apply(mc_op_t o)
                 MC_CHECK(PC15 | PC13, clr_count[i] == exp, "clear(list %d): element %d handed over %d times, expected %d", a, i, clr_count[i], exp);
             }
             MC_CHECK(PC15 | PC13, cstl_slist_size(&L[a]) == 0, "clear(list %d) left size %zu", a, cstl_slist_size(&L[a]));
+            check_fresh(a);
         }
         while (m_len[a] > 0) m_remove(a, 0);
         break;
@@ -269,16 +271,30 @@ static void sym(const void *p)
     }
     KB_C('?');
 }
-static void w_canon(void)
+static void canon_one(int l)
 {
-    int l, k;
-    for (l = 0; l < NL; l++) {
+    int k;
+
         KB_C('L'); KB_U(L[l].count); KB_C(':'); sym(L[l].h.n); KB_C(','); sym(L[l].t); KB_C('[');
         for (k = 0; k < m_len[l]; k++) { const struct elem *e = &pool[m_seq[l][k]]; KB_U((unsigned)e->idx); KB_C('='); sym(e->n.n); KB_C(' '); }
         KB_C(']');
-    }
 }
-
+static void w_canon(void)
+{
+    int l;
+    for (l = 0; l < NL; l++) canon_one(l);
+}
+/* C15: after clear the container must be field-for-field what cstl_*_init produces */
+static void check_fresh(int l)
+{
+    char got[256], fresh[256]; size_t save = mc_kbn, n1, n2; int sl = m_len[l];
+    static struct cstl_slist saved;
+    mc_kbn = 0; m_len[l] = 0; canon_one(l); n1 = mc_kbn < 255 ? mc_kbn : 255; memcpy(got, mc_kb, n1); got[n1] = 0;
+    saved = L[l]; cstl_slist_init(&L[l], offsetof(struct elem, n));
+    mc_kbn = 0; canon_one(l); n2 = mc_kbn < 255 ? mc_kbn : 255; memcpy(fresh, mc_kb, n2); fresh[n2] = 0;
+    L[l] = saved; m_len[l] = sl; mc_kbn = save;
+    MC_CHECK(PC15, !strcmp(got, fresh), "after clear list %d is not like a freshly initialised one: fields %s, fresh %s", l, got, fresh);
+}
 static void w_opname(mc_op_t o, char *b, size_t n)
 {
     static const char *nm[] = { "?", "push_front", "push_back", "pop_front", "insert_after", "erase_after", "reverse", "sort", "concat", "swap", "clear" };
